@@ -51,13 +51,18 @@ private:
 [[nodiscard]] constexpr auto operator+(chrono::year_month const& ym, chrono::months const& dm) noexcept
     -> chrono::year_month
 {
-    return {ym.year(), ym.month() + dm};
+    auto const mo = static_cast<long long>(static_cast<unsigned>(ym.month())) - 1 + dm.count();
+    auto const dy = (mo >= 0 ? mo : mo - 11) / 12;
+    return {
+        ym.year() + chrono::years{static_cast<chrono::years::rep>(dy)},
+        chrono::month{static_cast<unsigned>(mo - dy * 12 + 1)},
+    };
 }
 
 [[nodiscard]] constexpr auto operator+(chrono::months const& dm, chrono::year_month const& ym) noexcept
     -> chrono::year_month
 {
-    return {ym.year(), ym.month() + dm};
+    return ym + dm;
 }
 
 [[nodiscard]] constexpr auto operator-(chrono::year_month const& ym, chrono::years const& dy) noexcept
@@ -69,7 +74,7 @@ private:
 [[nodiscard]] constexpr auto operator-(chrono::year_month const& ym, chrono::months const& dm) noexcept
     -> chrono::year_month
 {
-    return {ym.year(), ym.month() - dm};
+    return ym + -dm;
 }
 
 // [[nodiscard]] constexpr auto operator-(chrono::year_month const& ym1, chrono::year_month const&
